@@ -57,6 +57,7 @@ fn gen_params(a: Alphabet, depth: usize) -> SeqParams {
         wall_cap_s: 600.0,
         threads: 1,
         seed: GEN_SEED,
+        reopen_subsets_up_to: 0,
     }
 }
 
@@ -262,6 +263,7 @@ pub fn check_fixture(dir: &Path, depth: usize) -> (Vec<(String, String)>, u64, u
             wall_cap_s: 600.0,
             threads: 1,
             seed,
+            reopen_subsets_up_to: 0,
         };
         let mut w = Worker::new(&p);
         w.base = Some(Base { n: hist.len(), files, tab, model: node.model.clone() });
